@@ -281,27 +281,18 @@ def check(ctx):
         a = C.call_args(C.strip(pre[0][1]))
         r3.check(C.declref(a[0]) == 'typelib_search_path' and 'directory' in tu.text_of(a[1]), 'prepends the given directory', REL, tu.line(pp), 'prepend args changed')
     en = tu.func('enumerate_namespace_versions')
-    eb = tu.body(en)
-    # version already found -> skipped before a candidate is created; index assigned from the directory counter
-    lk = C.calls(eb, 'g_hash_table_lookup')
-    okd = False
-    for c in lk:
-        if C.declref(C.call_args(c)[0]) == 'found_versions':
-            # the enclosing if's then-branch must `continue`
-            for a in tu.ancestors(c):
-                if a.get('kind') == 'IfStmt':
-                    okd = C.always_exits(C.kids(a)[1]) and any(x.get('kind') == 'ContinueStmt' for x in C.walk(C.kids(a)[1]))
-                    break
-    r3.check(okd, 'a version already found in an earlier directory is skipped', REL, tu.line(en), 'duplicate versions are no longer skipped')
-    idx = [(C.member_path(l), C.declref(r)) for l, r, st in C.assignments(eb) if (C.member_path(l) or '').endswith('->path_index')]
-    incs = [n for n in C.walk(eb) if n.get('kind') == 'UnaryOperator' and n.get('opcode') == '++' and C.declref(C.kids(n)[0]) == 'index']
-    okx = idx == [('candidate->path_index', 'index')] and len(incs) == 1
-    if okx:
-        # the increment is a direct statement of the directory loop body
-        p = tu.par(incs[0])
-        while p is not None and p.get('kind') != 'CompoundStmt':
-            p = tu.par(p)
-        okx = p is not None and tu.par(p).get('kind') == 'ForStmt'
+    # (gated summary, static helpers inlined) a version already seen never creates a second candidate; a candidate's path_index is the running
+    # directory counter, which advances once per directory
+    EN0 = cgsa.summarise(ctx, REL, 'enumerate_namespace_versions')
+    mk = [e for e in gsa.find(EN0, 'call', r'^g_slist_(prepend|append)$') if e.loops]
+    dup = [a_ for a_ in EN0.atoms() if re.match(r'^g_hash_table_(lookup|contains)\(', a_)]
+    okd = bool(mk) and bool(dup) and all(not gsa.can_hold(e.cond, dict((a_, True) for a_ in dup)) for e in mk)
+    r3.check(okd, 'a version already found in an earlier directory is skipped', REL, tu.line(en), 'duplicate versions are no longer skipped (seen-version tests: %s)' % dup)
+    pst = [e for e in gsa.find(EN0, 'store', r'->path_index$')]
+    cnt_names = set(e.value for e in pst if re.match(r'^[A-Za-z_]\w*$', e.value))
+    incs = [e for e in EN0.effects if e.kind == 'local' and e.target in cnt_names and re.match(r'^(%s|\d+)\+1$' % re.escape(e.target), e.value)]
+    okx = len(cnt_names) == 1 and bool(incs) and all(len(e.loops) == 1 for e in incs) and all(len(e.loops) == 2 for e in pst)
+    idx = [(e.target[-24:], e.value) for e in pst]
     r3.check(okx, 'candidates are numbered by directory in walk order', REL, tu.line(en), 'path_index bookkeeping changed: %s' % idx)
     # init_globals: GI_TYPELIB_PATH entries precede the default dir (prepend + final reverse)
     ig = tu.func('init_globals')
